@@ -399,7 +399,7 @@ def h_andor(kind):
         'struct pair_int_int count_fixed_01(void) { return g_n01; }   /* contract proved by C06.count_fixed_01 */\n',
         Fn(PP, r'prepro\.narrow_result_bounds\(0\.0, 1\.0\);\s*prepro\.set_result_type\( var::INTEGER \);\s*auto n01 = count_fixed_01\(con\.GetArguments\(\)\);\s*if \(%s\)' % ('n01\\.first' if kind == 'And' else 'n01\\.second'),
            'void Preprocess_%s_head(void)' % kind,
-           block_end=r'if \(\(int\)con\.GetArguments\(\)\.size\(\) == n01\.(?:second|first)\) \{\s*prepro\.narrow_result_bounds\([01]\.0, [01]\.0\);\s*return;\s*\}',
+           block_end=r'if \(\(int\)con\.GetArguments\(\)\.size\(\)[^{;]*\{\s*prepro\.narrow_result_bounds\([^;]*\);\s*return;\s*\}',
            contract='__CPROVER_requires(lb_ == 0.0 && ub_ == 1.0 && g_n01.first >= 0 && g_n01.second >= 0 && g_nargs <= 1000000) '
                     + ('__CPROVER_ensures((lb_ == 0.0 && ub_ == 0.0) == (g_n01.first >= 1)) '
                        '__CPROVER_ensures((lb_ == 1.0 && ub_ == 1.0) == (g_n01.first == 0 && (size_t)g_n01.second == g_nargs)) '
